@@ -128,6 +128,10 @@ def check(case):
         else:
             if len(opened) > 1:
                 raise Violation(["two-open-sockets"], "sockets %r open after %s" % ([s.id for s in opened], where))
+            if out[0] == "ok" and not fired and not fs and used_socks and not opened and call["op"]["op"] not in ("shutdown", "raw_command"):
+                # nothing went wrong: the connection goes back to the pool, open (a healthy one is reused rather than reopened)
+                raise Violation(["healthy-socket-closed"], "the call succeeded, no fault was injected, yet its connection (socket %r) was closed instead of being kept for reuse: %s"
+                                % (used_socks, where))
             st_["live"] = opened[0].id if opened else None
         st_["last_release"] = now_end
     run = interpret(case, obs)
@@ -179,6 +183,8 @@ def sweep_cases(tier, seed):
                 for gap in (0, 4, 5, 6, 15):
                     for r in (OPS[0], OPS[2], OPS[10], OPS[16], OPS[17], OPS[18]):
                         yield {"kind": "pooled", "cfg": cfg, "calls": [{"op": OPS[0]}, {"op": r, "advance": gap}, {"op": OPS[2], "advance": gap}, {"op": OPS[3]}]}
+                        # the same with calls made from inside the application's own except block
+                        yield {"kind": "pooled", "cfg": cfg, "calls": [{"op": OPS[0], "ambient": True}, {"op": r, "advance": gap, "ambient": bool(gap % 2)}, {"op": OPS[2], "advance": gap, "ambient": True}, {"op": OPS[3]}]}
                         if r["op"] in ("close", "disconnect_all", "quit"):
                             yield {"kind": "pooled", "cfg": cfg, "calls": [{"op": OPS[0]}, {"op": r, "advance": gap}, {"op": OPS[2]}, {"op": r}, {"op": r}, {"op": OPS[0], "advance": gap}, {"op": OPS[4]}, {"op": OPS[3]}]}
 
